@@ -85,9 +85,44 @@ TOPICS = ["t", "t1", "t10", "t2", "T", "a.b", "topic-x", "zz", "_u", "0", "order
 ODD_IDS = ["", "a", "A", "a1", "a10", "a2", "é", "z", "Z", "\U0001F600", "ab", "b", "￿", "m", "m-", "m.", "Ā"]
 
 
+FULLWIDTH = "０１２３４５６７８９"
+ARABIC = "٠١٢٣٤٥٦٧٨٩"
+
+
+def id_family(rng):
+    """member ids that an operator (or an id scheme) would call 'the same but for ...': numeric suffixes with and without
+    zero padding, digits of other scripts, case, surrounding blanks, prefixes of each other, composed / decomposed
+    accents, separators.  Any two of them are DIFFERENT ids; an order that ties two of them depends on the listing."""
+    base = rng.choice(["worker-", "worker-", "w", "consumer", "c_", "node.", "é-", "e\u0301-", ""])
+    k = rng.choice([0, 1, 1, 2, 3, 7, 9, 10, 12])
+    ks = str(k)
+    out = [base + ks, base + "0" + ks, base + "00" + ks, base + ks + "0", base + str(k + 1), base + str(k * 10 + 1), base + ks + "-0", base + ks + "-00",
+           base.upper() + ks, base.capitalize() + ks, base + ks + " ", " " + base + ks, base + "".join(FULLWIDTH[int(c)] for c in ks),
+           base + "".join(ARABIC[int(c)] for c in ks), base + "+" + ks, base + ks + ".0", base, base + ks + "a", base + ks + "A",
+           base.replace("-", "_") + ks, base.replace("é", "e\u0301") + ks, base + ks + "\u200b"]
+    return [x for j, x in enumerate(out) if x not in out[:j]]
+
+
+def loose_key(i):
+    """what a 'friendly' ordering of ids might compare: NFKC-folded, blanks and zero-width characters dropped, case
+    folded, digit runs as numbers.  Only used to MEASURE how often the generator lists two ids that tie under it."""
+    import re
+    import unicodedata
+
+    t = unicodedata.normalize("NFKC", i).replace("\u200b", "").strip().casefold()
+    return tuple(int(x) if k % 2 else x for k, x in enumerate(re.split(r"(\d+)", t)))
+
+
 def gen_ids(rng, n):
-    mode = rng.randrange(4)
-    if mode == 0:
+    mode = rng.randrange(6)
+    if mode >= 4:
+        pool = id_family(rng)
+        if rng.random() < 0.4:
+            pool = pool + [x for x in id_family(rng) if x not in pool]
+        while len(pool) < n:
+            pool.append("extra-%d" % len(pool))
+        ids = rng.sample(pool, n)
+    elif mode == 0:
         ids = ["member-%d" % i for i in rng.sample(range(1, 30), n)]  # "member-10" < "member-2"
     elif mode == 1:
         ids = rng.sample(ODD_IDS, n)
@@ -189,6 +224,8 @@ def gen_assign(rng):
             rng.shuffle(subs[k])
             tags.append("topic-repeated-in-subscription")
     members = [[i, s] for i, s in zip(ids, subs)]
+    if len(set(loose_key(i) for i in ids)) < len(ids):
+        tags.append("ids-that-tie-under-a-loose-order")
     if rng.random() < 0.03 and nm >= 2:
         members.append([members[0][0], rng.sample(topics, rng.randrange(0, len(topics) + 1))])  # repeated member id
         tags.append("dup-member-id")
@@ -407,7 +444,13 @@ def gen_history(rng):
                 del others[rng.choice(sorted(others))]
         members = [[leader, list(leader_topics)]] + [[i, list(sub)] for i, sub in sorted(others.items())]
         rng.shuffle(members)
-        gens.append({"members": members, "cluster": [[t, list(ps)] for t, ps in sorted(cluster.items())]})
+        gen = {"members": members, "cluster": [[t, list(ps)] for t, ps in sorted(cluster.items())]}
+        if rng.random() < 0.3:
+            # the leader's partition load takes time: the metadata of some subscribed topic is not usable for a while
+            # (leader election, topic being created) - shorter AND longer than the session timeout (30 s)
+            slow = rng.sample(sorted(cluster), rng.randrange(1, len(cluster) + 1))
+            gen["load_delay"] = dict((t, rng.choice([0.5, 3, 12, 29, 31, 45, 90, 400])) for t in slow)
+        gens.append(gen)
     if rng.random() < 0.12:  # in the last generation the loader's answer leaves topics out (breaks its contract)
         last = gens[-1]
         pool = [t for t, _ in last["cluster"]]
@@ -454,6 +497,8 @@ def run_history_sc(proto, sc, batch, res):
         encs = rec["encs"]
         wtok = ";".join(tstr(i) + ":" + hx(b) for i, b in rec["wire"])
         batch.add("leader %s %s" % (wtok, tmap(loaded)), "enc " + ";".join(tstr(i) + ":" + hx(b) for i, b in encs), ("corr", sc, "leader@%d" % g))
+        dl = max((gen.get("load_delay") or {"": 0}).values())
+        res.count("history_partition_load_takes=%s" % ("0s" if dl == 0 else "<session-timeout" if dl < 30 else ">session-timeout"))
         res.count("history_loads_per_generation=%d" % len(rec["loads"] or []))
         if prev is not None and prev != tp:
             res.count("history_partition_map_changed")
@@ -948,6 +993,11 @@ def run(ctx, res):
         res.notes.append("thorough tier includes the bounded-exhaustive enumeration exhaustive_small(): 1..3 members x all subscription subsets of 2 topics x 0..3 partitions per topic x all listing orders (6720 scenarios)")
     else:
         run_scenarios(generate(ctx.rng, 5000, 2500, 600), res, ctx.model)
+    from harness.lib import assign_syncwire  # stage `syncwire`: the second sentence across the real SyncGroup wire path
+
+    from harness.lib.xl5_guard import guarded
+
+    guarded(res, "assign/syncwire", assign_syncwire.run_stage, ctx, res)
     # report shrunk disagreements
     for d in res.disagreements[:3]:
         if isinstance(d.get("scenario"), dict) and d["scenario"].get("kind") == "assign":
@@ -1006,6 +1056,10 @@ def replay(ctx, data):
     if sc is None:
         print("replay: no scenario in this file (a broken proof obligation has none):", json.dumps(data.get("no_longer_checks", data))[:2000])
         return 0
+    if sc["kind"] == "syncwire":
+        from harness.lib import assign_syncwire
+
+        return assign_syncwire.replay_one(ctx, sc)
     if sc["kind"] == "assign":
         sc.setdefault("relist", list(reversed(range(len(sc["members"])))))
     print("replay scenario:", json.dumps(sc))
